@@ -1,5 +1,128 @@
 import WuffsVerif.Common.Line
-/-! Line driver for C07 — stub, not built yet. -/
-open WuffsVerif.Line
+import WuffsVerif.Model.StdHash
+import WuffsVerif.Model.StdSpecLzw
+import WuffsVerif.Model.StdSpecGzip
+/-! Line driver for C07 (std hashers and specification decoders).
 
-def main : IO Unit := runPure (fun _ => "bad-op")
+  hash <adler32|crc32|crc64|sha256> <splits> <hex>
+      splits: `-` (one update call) or `n,n,…` sizes of successive update calls (a call is made
+      until the input is used up; the last size repeats; at least one call)
+      -> `sum=<big-endian hex of the Wuffs-mirror model> spec=ok`   (spec=<hex> if the mirror differs
+         from the mathematical specification of the hash of the whole string)
+  hash0 <codec>            -> `sum=<hex>`  the checksum of a hasher that never saw an update call
+  dec deflate <hex>        -> `ok len=<n> out=<hex | fnv64:<16 hex>>` | `err`     (RFC 1951 spec decoder)
+  dec zlib <dict hex> <hex>                                                          (RFC 1950, preset dictionary)
+  dec gzip <hex>           all members                                               (RFC 1952)
+  dec gzip1 <hex>          first member only: `ok len= out= used=<bytes>`
+  dec lzw <litwidth> <hex> GIF-flavour LZW: `ok len= out= used=` | `err truncated` | `err badcode`
+  lzwenc <litwidth> <hex>  literal-only reference encoder -> hex
+-/
+open WuffsVerif WuffsVerif.Line WuffsVerif.StdHash
+
+def hexN (digits : Nat) (v : Nat) : String :=
+  String.ofList ((List.range digits).reverse.map (fun i => hexDigit ((v >>> (4 * i)) % 16)))
+
+def fnv64 (b : Array UInt8) : UInt64 :=
+  b.foldl (fun h x => (h ^^^ x.toUInt64) * 0x100000001b3) 0xcbf29ce484222325
+
+def showOut (b : Array UInt8) : String :=
+  if b.size ≤ 4096 then s!"len={b.size} out={toHex b.toList}"
+  else s!"len={b.size} out=fnv64:{hexN 16 (fnv64 b).toNat}"
+
+def parseSplits (s : String) : Option (List Nat) :=
+  if s == "-" then some [] else (s.splitOn ",").mapM String.toNat?
+
+/-- the successive chunks the C driver's `hash` command feeds -/
+def chunksOf (sizes : List Nat) (x : List UInt8) : List (List UInt8) :=
+  let rec go (fuel : Nat) (sizes : List Nat) (last : Nat) (x : List UInt8) (acc : List (List UInt8)) :=
+    match fuel with
+    | 0 => acc.reverse
+    | fuel + 1 =>
+      let (n, rest, isLast) := match sizes with
+        | [] => (last, [], true)
+        | [a] => (a, [], true)
+        | a :: r => (a, r, false)
+      let n := if n > x.length then x.length else n
+      let n := if n == 0 && isLast && x.length > 0 then x.length else n
+      let acc := x.take n :: acc
+      let x := x.drop n
+      if x.isEmpty then acc.reverse else go fuel rest (if isLast then n else last) x acc
+  match sizes with
+  | [] => [x]
+  | _ => go (x.length + sizes.length + 2) sizes 0 x []
+
+def hashOp (codec : String) (parts : List (List UInt8)) : Option String :=
+  let whole := parts.flatten
+  match codec with
+  | "adler32" =>
+    let m := (parts.foldl AdlerHasher.update {}).checksum
+    let sp := adler32Spec whole
+    some s!"sum={hexN 8 m} spec={if m == sp then "ok" else hexN 8 sp}"
+  | "crc32" =>
+    let m := (parts.foldl crc32Up 0).toNat
+    let sp := (crc32Spec whole).toNat
+    some s!"sum={hexN 8 m} spec={if m == sp then "ok" else hexN 8 sp}"
+  | "crc64" =>
+    let m := (parts.foldl crc64Up 0).toNat
+    let sp := (crc64Spec whole).toNat
+    some s!"sum={hexN 16 m} spec={if m == sp then "ok" else hexN 16 sp}"
+  | "sha256" =>
+    let m := (parts.foldl ShaHasher.update {}).checksum
+    let sp := sha256Spec whole
+    let h (l : List UInt8) := if l.isEmpty then "-" else toHex l
+    some s!"sum={h m} spec={if m == sp then "ok" else h sp}"
+  | _ => none
+
+def c07Step (l : List String) : String :=
+  match l with
+  | ["hash", codec, splits, hx] =>
+    match parseSplits splits, fromHex hx with
+    | some sz, some x => (hashOp codec (chunksOf sz x)).getD "bad-op"
+    | _, _ => "bad-op"
+  | ["hash0", codec] =>
+    match codec with
+    | "adler32" => s!"sum={hexN 8 ({} : AdlerHasher).checksum}"
+    | "crc32" => s!"sum={hexN 8 0}"
+    | "crc64" => s!"sum={hexN 16 0}"
+    | "sha256" => s!"sum={toHex ({} : ShaHasher).checksum}"
+    | _ => "bad-op"
+  | ["dec", "deflate", hx] =>
+    match fromHex hx with
+    | some x => match Flate.Spec.inflate x.toArray with
+      | some (o, _) => "ok " ++ showOut o
+      | none => "err"
+    | none => "bad-op"
+  | ["dec", "zlib", dict, hx] =>
+    match fromHex dict, fromHex hx with
+    | some d, some x => match Flate.Spec.zlibDecode d.toArray x.toArray with
+      | some (o, _) => "ok " ++ showOut o
+      | none => "err"
+    | _, _ => "bad-op"
+  | ["dec", "gzip", hx] =>
+    match fromHex hx with
+    | some x => match StdSpec.Gzip.decode x.toArray with
+      | some o => "ok " ++ showOut o
+      | none => "err"
+    | none => "bad-op"
+  | ["dec", "gzip1", hx] =>
+    match fromHex hx with
+    | some x => match StdSpec.Gzip.member x.toArray with
+      | some (o, n) => s!"ok {showOut o} used={n}"
+      | none => "err"
+    | none => "bad-op"
+  | ["dec", "lzw", lw, hx] =>
+    match lw.toNat?, fromHex hx with
+    | some w, some x =>
+      if w > 8 then "bad-op" else
+      match StdSpec.Lzw.decode w x.toArray with
+      | (.ok, o, n) => s!"ok {showOut o} used={n}"
+      | (.truncated, _, _) => "err truncated"
+      | (.badCode, _, _) => "err badcode"
+    | _, _ => "bad-op"
+  | ["lzwenc", lw, hx] =>
+    match lw.toNat?, fromHex hx with
+    | some w, some x => if w > 8 || w < 1 then "bad-op" else toHex (StdSpec.Lzw.encode w x)
+    | _, _ => "bad-op"
+  | _ => "bad-op"
+
+def main : IO Unit := runPure c07Step
